@@ -180,6 +180,24 @@ partial def parseSTree : List String → Option (STree × List String)
       do let (l, r) ← cs (pN k) r; pure (.comp l, r)
   | _ => none
 
+partial def parsePriors : List String → List (PriorM Float × Float)
+  | "U" :: lo :: hi :: g :: v :: r =>
+      match mkUniform (pExt lo) (pExt hi) (if g == "none" then none else some (pF g)) with
+      | some u => (.uniform u, pF v) :: parsePriors r
+      | none => parsePriors r
+  | "G" :: mu :: sd :: v :: r =>
+      match mkGaussian (pF mu) (pF sd) with
+      | some g => (.gauss g, pF v) :: parsePriors r
+      | none => parsePriors r
+  | "B" :: mu :: sd :: lo :: hi :: v :: r =>
+      match mkBoundedGaussian (pF mu) (pF sd) (pExt lo) (pExt hi) with
+      | some g => (.gauss g, pF v) :: parsePriors r
+      | none => parsePriors r
+  | _ => []
+
+def pNoise (s : String) : NoiseSrc Float :=
+  if s == "none" then .isNone else if s == "absent" then .absent else .value (pF s)
+
 def step (line : String) : String :=
   match (line.trimAscii.toString.splitOn " ").filter (· ≠ "") with
   -- C19 ---------------------------------------------------------------
@@ -387,6 +405,27 @@ def step (line : String) : String :=
       match parseSTree toks with
       | some (t, []) => " ".intercalate (t.flatten.map fun kv => keyText kv.1 ++ "=" ++ toString kv.2)
       | _ => "bad-op"
+  -- C12 ---------------------------------------------------------------
+  | "lnlike" :: sd :: n :: rest =>
+      let xs := rest.map pF
+      sF (lnlikeScalar (xs.take (pN n)) (xs.drop (pN n)) (pF sd))
+  | "lnlikepp" :: n :: rest =>
+      let xs := rest.map pF
+      let k := pN n
+      sF (lnlikePerPixel (xs.take k) ((xs.drop k).take k) (xs.drop (2 * k)))
+  | "lnprior" :: valid :: cons :: rest =>
+      let pv := parsePriors rest
+      sF (extF (lnprior (pv.map (·.1)) (pv.map (·.2)) (valid == "1") (cons == "1")))
+  | ["findnoise", m, d, au] =>
+      match findNoise (1.0 : Float) (pNoise m) (pNoise d) (au == "1") with
+      | .ok v => sF v
+      | .error _ => "err:MissingParameter"
+  | "lnposterior" :: lp :: sd :: n :: rest =>
+      let xs := rest.map pF
+      let l : Ext Float := if lp == "ninf" then .ninf else .fin (pF lp)
+      let r := lnposterior l (fun _ => xs.drop (pN n)) (xs.take (pN n)) (pF sd)
+      sF (extF r.1) ++ " " ++ toString r.2
+  | ["limitoverlaps", l, r, f] => toString (limitOverlapsOk (pF l) (pF r) (pF f))
   | ["genfailures"] => toString (translationFailures ++ projTranslationFailures)
   | _ => "bad-op"
 
